@@ -74,6 +74,14 @@ Theorem C16_macro_roundtrip_ascii_only : forall sorter data symbols body m head 
 Proof. exact macro_ascii_roundtrip. Qed.
 Print Assumptions C16_macro_roundtrip_ascii_only.
 
+Theorem C16_fnc1_roundtrip_ascii_only : forall sorter data symbols use_macros cw s,
+  (forall k l l', sorter symbols k l = Ok l' -> incl l' l) -> bytes_ok data = true ->
+  encode_data_internal (optimize_fn sorter) data symbols None 1 use_macros true = Ok (cw, s) ->
+  (exists npad, script_ok [SAscii (greedy data)] npad = true /\ cw = stream_with 232 [SAscii (greedy data)] npad) /\
+  decode_data cw = Ok data.
+Proof. exact fnc1_ascii_roundtrip. Qed.
+Print Assumptions C16_fnc1_roundtrip_ascii_only.
+
 (* NOT a theorem here: that the body decodes to itself under the other plans (the round trip through the six mode encoders and the
    decoder) -- decided per case by the correspondence + reference decoder, see DESIGN.md. *)
 
